@@ -101,13 +101,13 @@ pub fn check(case: &Case, obs: &mut Obs) -> Verdict {
     match case.sub.as_str() {
         "prefix" | "prefix_fill" | "prefix_custom_algorithm" => {
             let lines: Vec<String> = if case.sub == "prefix" {
-                textwrap::wrap(text, o.build()).into_iter().map(|c| c.into_owned()).collect()
+                o.wrap_owned(text)
             } else if case.sub == "prefix_custom_algorithm" {
                 obs.bump("custom_algorithm_with_empty_slice");
                 let opts = o.build().wrap_algorithm(textwrap::WrapAlgorithm::Custom(top_margin));
                 textwrap::wrap(text, opts).into_iter().map(|c| c.into_owned()).collect()
             } else {
-                textwrap::fill(text, o.build()).split(o.le()).map(|s| s.to_string()).collect()
+                o.fill(text).split(o.le()).map(|s| s.to_string()).collect()
             };
             obs.calls += 1;
             if let Err(e) = check_prefix(&lines, &o.ii, &o.si) {
